@@ -322,6 +322,13 @@ func (e *Engine) writesOf(c *Ctx, fn *ssa.Function) *WriteSet {
 		e.writeMemo[name] = w
 		return w
 	}
+	if fn.Name() == "String" && fn.Pos().IsValid() && strings.HasSuffix(e.Prog.Fset.Position(fn.Pos()).Filename, ".pb.go") {
+		// generated enum/message String(): formatting only
+		e.note("generated String() methods in *.pb.go are assumed to have no visible side effects")
+		w := &WriteSet{Heaps: map[string]bool{}}
+		e.writeMemo[name] = w
+		return w
+	}
 	e.writeBusy[name] = true
 	defer delete(e.writeBusy, name)
 	w := &WriteSet{Heaps: map[string]bool{}}
@@ -565,6 +572,9 @@ func (f *Frame) store(st *State, addr string, t types.Type, v string) {
 		nh := f.ctx.Fresh(hn, heapSort(hn))
 		f.ctx.Fact(fmt.Sprintf("(forall ((q Ptr)) (! (= (select %s q) (ite (and (not (= q nil)) (= (pobj q) (pobj %s)) ((_ is elem) (ppath q)) (= (ebase (ppath q)) (ppath %s)) (<= 0 (eidx (ppath q))) (< (eidx (ppath q)) %d)) (select %s (eidx (ppath q))) (select %s q))) :pattern ((select %s q))))",
 			nh, addr, addr, u.Len(), v, h, nh))
+		if hn == "H_uint8" {
+			f.ctx.Fact(fmt.Sprintf("(forall ((s Slice)) (! (=> (not (= (pobj (sbase s)) (pobj %s))) (= (content %s s) (content %s s))) :pattern ((content %s s))))", addr, nh, h, nh))
+		}
 		st.heaps[hn] = nh
 		return
 	}
@@ -977,7 +987,7 @@ func (f *Frame) enterLoop(l *loop, entryReach string, entrySt *State, edges []in
 	// 1. invariant holds on entry (phis currently hold the merged entry values).
 	for _, inv := range invs {
 		env := f.loopEnv(l, entrySt)
-		g, err := env.evalBool(inv.E)
+		g, err := env.evalGoal(inv.E)
 		if err != nil {
 			f.bail("loop %d invariant %q: %v", l.ordinal, inv.Text, err)
 		}
@@ -1048,7 +1058,7 @@ func (f *Frame) checkBackEdge(l *loop, from *ssa.BasicBlock, cond string, st *St
 	}
 	for _, inv := range invs {
 		env := f.loopEnv(l, st)
-		g, err := env.evalBool(inv.E)
+		g, err := env.evalGoal(inv.E)
 		if err != nil {
 			f.bail("loop %d invariant %q: %v", l.ordinal, inv.Text, err)
 		}
